@@ -157,7 +157,7 @@ def run(ctx):
         if not ctx.mine(k):
             continue
         if refmodel.is_msm_identity(identity):
-            for j in range(250 if ctx.quick else 12000):
+            for j in range(600 if ctx.quick else 12000):
                 seedtag = rng.getrandbits(40)
                 ms = refmodel.MSTRATS[j % len(refmodel.MSTRATS)]
                 force = None
